@@ -15,6 +15,9 @@ use vfs::VfsPath;
 const LENS: &[usize] = &[0, 1, 2, 7, 255, 4096, 8191, 8192, 8193, 16384, 65537];
 
 pub fn gen_bytes(rng: &mut Rng, quick: bool) -> Vec<u8> {
+    if rng.chance(1, 8) {
+        return rng.block_bytes();
+    }
     let len = if rng.chance(1, 40) && !quick { 200_003 } else { *rng.pick(LENS) };
     let utf8 = rng.chance(1, 2);
     rng.bytes(len, utf8)
